@@ -77,7 +77,7 @@ func main() {
 	rulesh.Clk = clk
 	x := &runner{a: a, root: rng.New(a.Seed), rep: emit.NewReport("C13", a.Seed, a.Tier), dist: emit.NewDistinct()}
 	x.rep.Rule = "per module (flow, isolation, hotspot, circuit breaker: 1-3 resources, 3-7 operations LoadRules / LoadRulesOfResource / clear-all / clear-resource / empty resource name, lists of 0-4 elements drawn from a per-case alphabet of valid rules, statistic-reusable variants, rules invalid in exactly one field, rules without generator, rules addressed to another resource, nil elements, duplicates, freshly allocated identical repeats; system: whole-set loads incl. nil vs empty slice; outlier: whole-set and single-rule loads) followed by one probe request per resource. Non-trivial = the history contains at least one invalid or nil element and (an identical reload, or a reload in which a controller was kept for an equal rule); distinct by full input."
-	nCorr := a.Pick(a.N, 45, 1500)
+	nCorr := a.Pick(a.N, 45, 1000)
 	nMon := a.Pick(a.Mon, 500, 12000)
 	if a.Search {
 		nCorr = 0
